@@ -448,11 +448,28 @@ func c15Run(c *fw.Ctx, i int) {
 		if k == 7 {
 			c15CLI(c, qs, d, sel)
 		}
+		if k == 8 && c.Case%4 == 0 {
+			// what a shell hands over when the query is forgotten, empty, only
+			// white space, or looks like an option or a file reference
+			edge := []string{"", " ", "\t\n", "@", "@/nonexistent/query.txt", "-", "--", "-format", "\"", "\x00"}[(c.Case/4)%10]
+			c15CLIArgs(c, edge, d, sel, true)
+			if (c.Case/4)%10 == 0 {
+				c15CLIArgs(c, "", d, sel, false) // no query argument at all
+			}
+		}
 	}
 }
 
 // c15CLI runs the real binary and looks for a Go crash.
 func c15CLI(c *fw.Ctx, qs string, d c15Docs, sel []int) {
+	if strings.ContainsRune(qs, 0) {
+		return
+	}
+	c15CLIArgs(c, qs, d, sel, true)
+}
+
+// c15CLIArgs: withQuery false leaves the query argument out altogether.
+func c15CLIArgs(c *fw.Ctx, qs string, d c15Docs, sel []int, withQuery bool) {
 	bin := os.Getenv("VERIF_GEDCOM_BIN")
 	if bin == "" || strings.ContainsRune(qs, 0) {
 		return
@@ -476,7 +493,10 @@ func c15CLI(c *fw.Ctx, qs string, d c15Docs, sel []int) {
 		}
 	}()
 	format := c15Formats[c.R.Intn(len(c15Formats))]
-	args = append(args, "-format", format, qs)
+	args = append(args, "-format", format)
+	if withQuery {
+		args = append(args, qs)
+	}
 	outS, runErr, okRun := runCLI(c, "cli", map[string]interface{}{"args": args}, nil, 60, bin, args...)
 	if !okRun {
 		return
